@@ -69,6 +69,39 @@ def _check_model(net, bounds, P, stats, rich=False, origin=None):
     objectives = [None] + [({r: 1}, d) for r in ids for d in (("max", "min") if rich else ("max",))]
     if not rich:
         objectives = objectives[:3] + [({ids[-1]: 1}, "min")]
+    # a second compartment profile: the metabolite of the last boundary reaction lives inside the cell, which makes that
+    # reaction a demand or sink - open_exchanges must leave it alone (only run when another exchange remains)
+    bnd = [r for r in rxns if len(r[1]) == 1]
+    if not origin and len(bnd) >= 2:
+        last_met = next(iter(bnd[-1][1]))
+        if all(last_met not in r[1] for r in bnd[:-1]):
+            comp2 = dict(comp, **{last_met: "c"})
+            opened2 = [(rid, st, min(lb, -1000), max(ub, 1000)) if (len(st) == 1 and last_met not in st) else (rid, st, lb, ub)
+                       for rid, st, lb, ub in rxns]
+            blocked2 = {False: blocked[False], True: true_blocked(mets, opened2)}
+            model2 = families.build_model(mets, rxns, compartments=comp2)
+            for oe in (False, True):
+                for rl in lists[:1 + len(ids)]:
+                    case = {"net": [list(c) for c in net], "bounds": [[_j(a), _j(b)] for a, b in bounds],
+                            "objective": None, "open_exchanges": oe, "reaction_list": rl, "inside": last_met}
+                    stats["evaluations"] = stats.get("evaluations", 0) + 1
+                    want = sorted(blocked2[oe] & set(rl if rl is not None else ids))
+                    try:
+                        with warnings.catch_warnings():
+                            warnings.simplefilter("ignore")
+                            got = sorted(find_blocked_reactions(model2, reaction_list=rl, open_exchanges=oe, processes=1))
+                    except Exception as exc:
+                        out.append(({"fn": "find_blocked_reactions", "check": "raised", "exc": type(exc).__name__,
+                                     "objective": "none", "open_exchanges": oe, "profile": "demand_or_sink"}, case,
+                                    f"{exc!r}\nmodel {rxns}\ncase {case}"))
+                        continue
+                    if got != want:
+                        kind = ("reports non-blocked reactions as blocked" if set(got) - set(want) else
+                                "misses blocked reactions")
+                        out.append(({"fn": "find_blocked_reactions", "check": kind, "objective": "none",
+                                     "open_exchanges": oe, "profile": "demand_or_sink"}, case,
+                                    f"returned {got}, truly blocked {want} (boundary reaction of {last_met} is no exchange)\n"
+                                    f"model {rxns}\ncase {case}"))
     for obj in objectives:
         if obj is not None:
             model.objective = {model.reactions.get_by_id(r): c for r, c in obj[0].items()}
